@@ -155,6 +155,9 @@ func evBitFwd(t *Tracer, id BID, hz, vz, S, mn, mx int64, sp bool) {
 		e.Bad = "panic"
 	} else if res != nil {
 		groups := []any{}
+		if tooManyPairs(res, &e.Bad) {
+			res = []*object.FromExtendedSpatialIDToQuadkeyAndVerticalID{}
+		}
 		for _, g := range res.([]*object.FromExtendedSpatialIDToQuadkeyAndVerticalID) {
 			pairs := []any{}
 			for _, p := range g.InnerIDList() {
@@ -196,6 +199,9 @@ func evBitFwdList(t *Tracer, ids []BID, hz, vz, S, mn, mx int64) {
 		e.Bad = "panic"
 	} else if res != nil {
 		groups := []any{}
+		if tooManyPairs(res, &e.Bad) {
+			res = []*object.FromExtendedSpatialIDToQuadkeyAndVerticalID{}
+		}
 		for _, g := range res.([]*object.FromExtendedSpatialIDToQuadkeyAndVerticalID) {
 			pairs := []any{}
 			for _, p := range g.InnerIDList() {
@@ -212,6 +218,20 @@ func evBitFwdList(t *Tracer, ids []BID, hz, vz, S, mn, mx int64) {
 		e.R = groups
 	}
 	t.Emit(e, true)
+}
+
+// tooManyPairs: no driver asks for more than a few thousand (quadkey, cell) pairs; a result of hundreds of thousands is
+// recorded as such instead of being shipped to TLC pair by pair
+func tooManyPairs(res any, bad *string) bool {
+	total := 0
+	for _, g := range res.([]*object.FromExtendedSpatialIDToQuadkeyAndVerticalID) {
+		total += len(g.InnerIDList())
+	}
+	if total > 200000 {
+		*bad = fmt.Sprintf("%d (quadkey, vertical ID) pairs returned - far beyond anything this call can correctly return", total)
+		return true
+	}
+	return false
 }
 
 // evBitFwdFree: a height range with arbitrary (decimal, feet) bounds; see TraceOps.X_BitFwdFree.
@@ -248,6 +268,9 @@ func evBitFwdFree(t *Tracer, id BID, hz, vz int64, minH, maxH float64) {
 		e.Bad = "panic"
 	} else if res != nil {
 		groups := []any{}
+		if tooManyPairs(res, &e.Bad) {
+			res = []*object.FromExtendedSpatialIDToQuadkeyAndVerticalID{}
+		}
 		for _, g := range res.([]*object.FromExtendedSpatialIDToQuadkeyAndVerticalID) {
 			pairs := []any{}
 			for _, p := range g.InnerIDList() {
@@ -322,6 +345,9 @@ func evBitFwdHi(t *Tracer, id BID, hz, vz, S, mn, cell int64) {
 		e.Bad = "panic"
 	} else if res != nil {
 		groups := []any{}
+		if tooManyPairs(res, &e.Bad) {
+			res = []*object.FromExtendedSpatialIDToQuadkeyAndVerticalID{}
+		}
 		for _, g := range res.([]*object.FromExtendedSpatialIDToQuadkeyAndVerticalID) {
 			pairs := []any{}
 			for _, p := range g.InnerIDList() {
